@@ -53,4 +53,23 @@ func d6(k string) string { // D6
 	return u.Host
 }
 
-var _ = []interface{}{d6, d1, d2, d3, d5, (*comp).use, (*comp).checked}
+type req struct {
+	Count *int `json:"count,omitempty"`
+	N     int  `json:"n"`
+}
+
+func d7(r req, xs []string) []string { // D7: only the upper bound is checked
+	if r.Count != nil && len(xs) >= *r.Count {
+		return xs[:*r.Count]
+	}
+	return xs[:r.N] // D7: not checked at all
+}
+
+func d7ok(r req, xs []string) []string { // guarded on both sides: not reported
+	if r.N >= 0 && r.N <= len(xs) {
+		return xs[:r.N]
+	}
+	return nil
+}
+
+var _ = []interface{}{d6, d1, d2, d3, d5, d7, d7ok, (*comp).use, (*comp).checked}
